@@ -1,6 +1,6 @@
 //@ unit ascdata
 // C03 (text converters, slicing): the data bytes of a CAN / CAN-FD line of an .asc file are cut out of the line and decoded without
-// panicking, whatever (valid UTF-8) text the line contains.
+// panicking, whatever (valid UTF-8) text the line contains; a logcat tag is shortened without panicking.
 #![allow(unused_imports, dead_code, unused_variables, unused_mut, non_upper_case_globals)]
 use vstd::prelude::*;
 verus! {
@@ -51,6 +51,85 @@ impl VxLine {
 //@   loop inner `vx_str_slice(`
 //@|    invariant vx_n == blen(s), vx_n >= 2, (vx_n - 2) % 3 == 0, vx_i % 3 == 0, vx_i <= vx_n + 1,
 //@|    decreases vx_n + 1 - vx_i,
+//@ end
+
+// get_4digit_str (src/utils/mod.rs; used by get_apid_for_tag for logcat tags): "abcd", 42 -> "ab42"
+#[verifier::external_body]
+pub struct VxCowStr { _p: u8 }
+#[verifier::external_body]
+pub fn vx_cow_from(s: &str) -> (r: VxCowStr) { unimplemented!() }
+#[verifier::external_body]
+pub fn vx_cow_prefix_number(prefix: &str, n: u16) -> (r: VxCowStr) { unimplemented!() }
+#[verifier::external_body]
+pub fn vx_cow_padded(s: &str, n: u16, width: usize) -> (r: VxCowStr) { unimplemented!() }
+// u16::to_string(): 1 to 5 digits
+#[verifier::external_body]
+pub fn vx_u16_digits(n: u16) -> (r: usize) ensures 1 <= r <= 5 { n.to_string().len() }
+//@ extract src/utils/mod.rs fn get_4digit_str
+//@   rules R1 R2 R3 R4 R5
+//@   sub R12 `Cow<'_, str>` => `VxCowStr`
+//@   sub R11 `Cow::from(a_str)` => `vx_cow_from(a_str)`
+//@   sub R11 `a_str.len()` => `vx_blen(a_str)`
+//@   sub R11 `let number_str = iteration.to_string();` => ``
+//@   sub R11 `number_str.len()` => `vx_u16_digits(iteration)`
+//@   sub R6 `Cow::Owned(format!("{}{:0len$}", a_str, iteration, len = 4 - len_str))` => `vx_cow_padded(a_str, iteration, 4 - len_str)`
+//@   sub R6 `Cow::Owned(format!("{}{}", &a_str[0..needed_str], iteration))` => `vx_cow_prefix_number(vx_str_slice(a_str, 0, needed_str), iteration)` ?
+//@   sub R6 `Cow::Owned(format!("{}{}", a_str.get(0..needed_str).unwrap_or(""), iteration))` => `vx_cow_prefix_number(vx_str_get(a_str, 0, needed_str).unwrap_or(""), iteration)` ?
+//@   spec
+//@|    ensures true, // O:asc.tag4.no_panic (shortening a tag to make room for a number cannot panic, whatever the tag)
+//@ end
+
+// logcat threadtime parsing (src/utils/logcat2dltmsgiterator.rs): the length guard and the fixed-offset slices of parse_threadtime_str
+// ("mm-dd hh:mm:ss.mss") and parse_mmdd_str ("mm-dd"); chrono is not modelled, the regions end before the date arithmetic
+#[verifier::external_body]
+pub fn vx_parse_u32(s: &str) -> (r: u32) { s.parse::<u32>().unwrap_or_default() }
+#[verifier::external_body]
+pub fn vx_str_from<'a>(s: &'a str, a: usize) -> (r: &'a str)
+    requires a <= blen(s), boundary(s, a as int), // O:asc.slice.char_boundary.from
+{ &s[a..] }
+#[verifier::external_body]
+pub struct VxDate { _p: u8 }
+//@ extract src/utils/logcat2dltmsgiterator.rs region `if mmdd.len() != 5` .. `let dd: u32 = mmdd[3..]` in fn parse_mmdd_str
+//@   sig pub fn mmdd_slices(mmdd: &str) -> (r: Option<VxDate>)
+//@   tail `None`
+//@   sub R11 `mmdd.len()` => `vx_blen(mmdd)`
+//@   sub R11 `mmdd.is_ascii()` => `vx_is_ascii(mmdd)` ?
+//@   sub R11 `mmdd[0..2].parse::<u32>().unwrap_or_default()` => `vx_parse_u32(vx_str_slice(mmdd, 0, 2))`
+//@   sub R11 `mmdd[3..].parse::<u32>().unwrap_or_default()` => `vx_parse_u32(vx_str_from(mmdd, 3))`
+//@   spec
+//@|    ensures true, // O:asc.mmdd.no_panic
+//@ end
+#[verifier::external_body]
+pub fn parse_mmdd_str(mmdd: &str, ref_date: &VxDate) -> (r: Option<VxDate>) { unimplemented!() }
+#[verifier::external_body]
+pub fn vx_date_or(d: Option<VxDate>, ref_date: &VxDate) -> (r: VxDate) { unimplemented!() }
+// (two shapes of the guard in front of the slices: with the ASCII test - the repaired text - its facts are the precondition; without
+// it only the length is known and the boundary obligations fail: the regression is decided, not lost)
+//@ extract src/utils/logcat2dltmsgiterator.rs region `>if timestamp.len() != 18 || !timestamp.is_ascii() { None } else {` .. `let milli: u32 = timestamp[15..18]` in fn parse_threadtime_str
+//@   when `timestamp.is_ascii()`
+//@   sig pub fn threadtime_slices(timestamp: &str, ref_date: &VxDate) -> (r: u32)
+//@   tail `milli`
+//@   sub R11 `parse_mmdd_str(&timestamp[0..5], ref_date).unwrap_or(*ref_date)` => `vx_date_or(parse_mmdd_str(vx_str_slice(timestamp, 0, 5), ref_date), ref_date)`
+//@   sub R11 `timestamp[6..8].parse::<u32>().unwrap_or_default()` => `vx_parse_u32(vx_str_slice(timestamp, 6, 8))`
+//@   sub R11 `timestamp[9..11].parse::<u32>().unwrap_or_default()` => `vx_parse_u32(vx_str_slice(timestamp, 9, 11))`
+//@   sub R11 `timestamp[12..14].parse::<u32>().unwrap_or_default()` => `vx_parse_u32(vx_str_slice(timestamp, 12, 14))`
+//@   sub R11 `timestamp[15..18].parse::<u32>().unwrap_or_default()` => `vx_parse_u32(vx_str_slice(timestamp, 15, 18))`
+//@   spec
+//@|    requires blen(timestamp) == 18, forall|k: int| 0 <= k <= blen(timestamp) ==> boundary(timestamp, k), // the guard: 18 bytes, all ASCII
+//@|    ensures true, // O:asc.threadtime.no_panic
+//@ end
+//@ extract src/utils/logcat2dltmsgiterator.rs region `>if timestamp.len() != 18 { None } else {` .. `let milli: u32 = timestamp[15..18]` in fn parse_threadtime_str
+//@   unless `timestamp.is_ascii()`
+//@   sig pub fn threadtime_slices(timestamp: &str, ref_date: &VxDate) -> (r: u32)
+//@   tail `milli`
+//@   sub R11 `parse_mmdd_str(&timestamp[0..5], ref_date).unwrap_or(*ref_date)` => `vx_date_or(parse_mmdd_str(vx_str_slice(timestamp, 0, 5), ref_date), ref_date)`
+//@   sub R11 `timestamp[6..8].parse::<u32>().unwrap_or_default()` => `vx_parse_u32(vx_str_slice(timestamp, 6, 8))`
+//@   sub R11 `timestamp[9..11].parse::<u32>().unwrap_or_default()` => `vx_parse_u32(vx_str_slice(timestamp, 9, 11))`
+//@   sub R11 `timestamp[12..14].parse::<u32>().unwrap_or_default()` => `vx_parse_u32(vx_str_slice(timestamp, 12, 14))`
+//@   sub R11 `timestamp[15..18].parse::<u32>().unwrap_or_default()` => `vx_parse_u32(vx_str_slice(timestamp, 15, 18))`
+//@   spec
+//@|    requires blen(timestamp) == 18, // the guard: 18 bytes
+//@|    ensures true, // O:asc.threadtime.no_panic
 //@ end
 
 // Asc2DltMsgIterator::next, a CAN line: from the position of the data-length capture to the decoded data bytes
